@@ -3,6 +3,7 @@ package harness
 import (
 	"context"
 	"fmt"
+	"strings"
 	"time"
 
 	"bbsim/simrt"
@@ -264,6 +265,26 @@ func c12Main(flavour int) {
 	// (a polling Channel.Get and a LinearAttempt producer end on the cancellation alone)
 	simrt.Quiesce(0)
 	if simrt.Failed() {
+		return
+	}
+	// ... and, every call having returned, no goroutine of the library is left NOW: not "once its timer
+	// has fired" (the clock has not moved since the last shutdown action)
+	allReturned := true
+	for _, h := range r.handles {
+		for _, cc := range h.calls {
+			allReturned = allReturned && cc.returned
+		}
+		allReturned = allReturned && h.doneClosed()
+	}
+	left := ""
+	for _, t := range simrt.Tasks() {
+		// (goroutines of the other components may still be inside a user function that has not finished)
+		if t.Lib && t.State != simrt.Done && (strings.HasPrefix(t.Name, "buffer.") || strings.HasPrefix(t.Name, "consumer.") || strings.HasPrefix(t.Name, "channel.")) {
+			left += fmt.Sprintf(" [%s: %s on %s]", t.Name, t.State, t.On)
+		}
+	}
+	if allReturned && left != "" {
+		simrt.Failf("C12.goroutine-left-until-timer", "everything is shut down, every Close has returned, every Done is closed, nothing can run without the clock moving, and goroutines started by the library are still there (waiting for a timer):%s", left)
 		return
 	}
 	t1 := c20TickerReqs()
